@@ -72,4 +72,3 @@ func smoke() int {
 	return 0
 }
 
-func signerChildMain(args []string)                 {}
